@@ -89,9 +89,9 @@ func (op R2t) Op_instruction_verilog_state_machine(conf *Config, arch *Arch, rg 
 			result += "						" + strings.ToUpper(Get_register_name(i)) + " : begin\n"
 
 			if stackBits == 1 {
-				result += "							case (current_instruction[" + strconv.Itoa(rom_word-opBits-stackBits-1) + "])\n"
+				result += "							case (current_instruction[" + strconv.Itoa(rom_word-opBits-int(arch.R)-1) + "])\n"
 			} else {
-				result += "							case (current_instruction[" + strconv.Itoa(rom_word-opBits-stackBits-1) + ":" + strconv.Itoa(rom_word-opBits-int(arch.R)-int(stackBits)) + "])\n"
+				result += "							case (current_instruction[" + strconv.Itoa(rom_word-opBits-int(arch.R)-1) + ":" + strconv.Itoa(rom_word-opBits-int(arch.R)-int(stackBits)) + "])\n"
 			}
 
 			for j := 0; j < stackNum; j++ {
